@@ -106,7 +106,7 @@ def naf_ref(a, w):
         d = d[:-1]; d[-1] = 1
         # the moved leading 1 now sits w-1 places above beta
     code = 0
-    for s in reversed(d):           # a_{l-1} first
+    for s in d:                     # the code of a_{l-1} occupies the first (= lowest, ww.h numbering) positions, that of a_0 the last
         if s == 0:
             code <<= 1
         else:
@@ -118,3 +118,4 @@ def f_naf(v):
     return dict(ret=len(d), naf=code)
 Fn('wwNAF', 'size', 'naf:out[2*n+1] a:in[n] n:len w:sz', rng(), dict(a=D_num('n'), w=D_list(lambda v, sh, W: [2, 3, 4, 5, 6, W // 2, W - 2, W - 1])),
    f=f_naf, **G)
+CAT['wwSetBits'].cls = lambda v: 'width=0' if v.width == 0 else None
